@@ -755,6 +755,11 @@ class Executor:
         if c.endswith(">") or re.match(r"^[\w:<>{}@#\[\]., '&/-]+$", c):
             # named constant in one of the modules?
             for mod in self.modules:
+                last = c.split("::")[-1]
+                for k, lit in mod.const_values.items():
+                    if k == c or c.endswith("::" + k) or k.split("::")[-1] == last and re.match(r"^[A-Z_0-9]+$", last):
+                        return self.eval_const(st, fr, lit)
+            for mod in self.modules:
                 if c in mod.promoteds:
                     return self.eval_const_item(st, mod.promoteds[c])
                 for k in mod.promoteds:
